@@ -150,6 +150,11 @@ func c41BuildSeries(shape string, pos int) c41Series {
 					s.Hists = append(s.Hists, c41Hist{T: t, ST: st, H: c41IntHist(int64(10*(pos+1) + k))})
 				case "fh":
 					s.Hists = append(s.Hists, c41Hist{T: t, ST: st, FH: c41FloatHist(int64(10*(pos+1) + k))})
+				case "fhz": // float histogram with an empty zero bucket
+					fh := c41FloatHist(int64(10*(pos+1) + k))
+					fh.Count -= fh.ZeroCount
+					fh.ZeroCount = 0
+					s.Hists = append(s.Hists, c41Hist{T: t, ST: st, FH: fh})
 				case "hc":
 					s.Hists = append(s.Hists, c41Hist{T: t, ST: st, H: tsdbutil.GenerateTestCustomBucketsHistogram(int64(10*(pos+1) + k))})
 				case "hbad":
@@ -195,7 +200,7 @@ func c41BuildSeries(shape string, pos int) c41Series {
 
 func c41Shapes() []string {
 	var out []string
-	for _, c := range []string{"f1", "f2", "f12", "f21", "f11", "f11=", "f22", "none", "h1", "fh1", "hc1", "h12", "h21", "h11", "h1+fh2", "hbad1", "f1+h2", "h1+f2", "f2+h1"} {
+	for _, c := range []string{"f1", "f2", "f12", "f21", "f11", "f11=", "f22", "none", "h1", "fh1", "fhz1", "hc1", "h12", "h21", "h11", "h1+fh2", "hbad1", "f1+h2", "h1+f2", "f2+h1"} {
 		out = append(out, "A:"+c+":e0:m0")
 	}
 	out = append(out,
